@@ -68,13 +68,18 @@ def run(ck):
         X = rng.standard_normal((n, d)); Y = rng.standard_normal((n, nout))
         Xv = rng.standard_normal((6, d)); Yv = rng.standard_normal((6, nout))
         Q = rng.standard_normal((5, d))
+        if i % 5 == 3:
+            # replicated design points (repeated measurements): distinct training ROWS that coincide are training points like any other, their
+            # zero distances are among the pairwise distances the median is taken over
+            ndist = int(rng.integers(3, 6)); reps = rng.standard_normal((ndist, d)); X = reps[np.arange(n) % ndist]
+            ck.count('replicated training rows')
         # every third configuration selects its iterate with a MAXIMISED metric (accuracy on one-hot targets)
         metric = 'accuracy' if i % 3 == 2 else 'mse'
         if metric == 'accuracy':
             K = 2 + (i // 3) % 2
             Y = np.eye(K)[rng.integers(0, K, size=n)]; Yv = np.eye(K)[rng.integers(0, K, size=6)]
             Y[:K] = np.eye(K); Yv[:K] = np.eye(K)
-        desc = dict(i=i, kernel=kern, diag=diag, iters=iters, q=q, early=early, rb=rb, base=base, n=n, d=d, metric=metric, seed=ck.seed)
+        desc = dict(i=i, kernel=kern, diag=diag, iters=iters, q=q, early=early, rb=rb, base=base, n=n, d=d, metric=metric, replicated_rows=bool(i % 5 == 3), seed=ck.seed)
 
         # every third configuration hands the leaf model a kernel OBJECT (constructed by the caller with default arguments) instead of a name
         as_object = (i % 3 == 1)
